@@ -27,14 +27,16 @@ import numpy as np
 from common import req, close, relerr, TOL, run_driver
 
 META = {
-    'text': 'Theorems (Lean 4, over the reals, any number of dead-oil compounds and tracked atmospheric gases): returned mass fluxes are non-negative; exactly proportional to the requested rate; the dead-oil components keep their given proportions and order (gas block = natural gas x beta, atmospheric gases zero; normalisation of the given masses irrelevant); the liquid (gas, for the gas-rate convention) volume flow of the returned fluxes at standard conditions equals the requested rate EXACTLY, given (hypotheses) homogeneity of the flash and scale invariance of density and that the rated phase is present - when it is absent no scaling can meet a positive rate (rate_target_infeasible_absent_phase); PARTIAL: the gas-to-oil ratio of the returned fluxes equals the requested one IF the value returned by fsolve is a root of gas_fraction (gor_target_if_root). That fsolve returns a root is NOT proved: it is observed on the real get_oil over the quantifier by re-flashing the returned fluxes at 288.15 K, 101325 Pa, with coverage floors per GOR band (0, 10-1000, >1000, >5000) as obligations. The model is tied to the real code by oracle-table correspondence (recorded flash / density answers and the recorded root replayed through the model).',
+    'text': 'Theorems (Lean 4, over the reals, any number of dead-oil compounds and tracked atmospheric gases): returned mass fluxes are non-negative; exactly proportional to the requested rate; the dead-oil components keep their given proportions and order (gas block = natural gas x beta, atmospheric gases zero; normalisation / absolute scale of the given masses irrelevant - also checked on the real code component-wise and by the metamorphic predicate get_oil(lambda*masses) = get_oil(masses)); the liquid (gas, for the gas-rate convention) volume flow of the returned fluxes at standard conditions equals the requested rate EXACTLY, given (hypotheses) homogeneity of the flash and scale invariance of density and that the rated phase is present - when it is absent no scaling can meet a positive rate (rate_target_infeasible_absent_phase); PARTIAL: the gas-to-oil ratio of the returned fluxes equals the requested one IF the value returned by fsolve is a root of gas_fraction (gor_target_if_root). That fsolve returns a root is NOT proved: it is observed on the real get_oil over the quantifier by re-flashing the returned fluxes at 288.15 K, 101325 Pa, with coverage floors per GOR band (0, 10-1000, >1000, >5000) as obligations. The model is tied to the real code by oracle-table correspondence (recorded flash / density answers and the recorded root replayed through the model).',
     'note': 'PARTIAL: convergence of scipy.optimize.fsolve inside mix_gas_for_gor is a library contract that is only sampled, and observed to FAIL (known finding gor-fsolve-start-beyond-dew-point) for dead oils with a small C8+ fraction once GOR exceeds about 2000 scf/bbl - about a quarter of random database oils at 5000-20000; second known finding: gas-rate convention for a gas-free oil returns NaN silently. Both known keys are emitted only after their signature is verified on the case (all gas at the first guess + fsolve returned it + a root found by bisection; resp. fp_type 0, gor 0, no gas phase, all NaN); the share of cases ending in a known signature and of time-outs is bounded by obligations; a raise of get_oil is a keyed violation. Trusted: Lean kernel + 3 standard axioms; the hand transcription Model/Oil.lean (validated each run by the correspondence); real arithmetic for IEEE doubles. The flash and the equations of state are oracle parameters; their homogeneity / scale invariance are HYPOTHESES sampled on every case. Only the TAMOC-database branch of get_oil is modelled (no ADIOS/GNOME import).',
     'technique': 'Lean 4 proof over a hand-written model + oracle-table correspondence + re-flash of the real outputs with coverage floors',
 }
 GEN = []
 MODULES = ['TamocV.Props.C12', 'TamocV.Model.Oil']
 RULE = ('get_oil on dead oils of 2-12 of the 12 database compounds that are liquid at 15 C / 1 atm, masses Dirichlet or log-uniform '
-        '(1e-4..1), normalised or scaled by 10^U(-2,3), given as array or list; rate 1, 1e6 and log-uniform 1-1e6 bbl/d; stratified '
+        '(1e-4..1); the absolute scale of the GIVEN masses cycles inside every GOR band through: total 1e-12..3e-10, total 1e-9..1e-6, '
+        'trace components (fractions 1e-12..1e-6, normalised or total 1e-3..1e6), normalised / total 1e-2..1e6; given as array or list; '
+        'on a fixed third of the cases get_oil(lambda * masses) for lambda = 1e-9, 1e-6, 1e3; rate 1, 1e6 and log-uniform 1-1e6 bbl/d; stratified '
         'GOR: 0 (oil-rate and gas-rate convention), 10-1000, 1000-5000, 5000-20000 (random oils and oils with >= 50 % '
         'toluene/ethylbenzene/n-decane that stay liquid under the gas load), two fixed cases; oil-rate and gas-rate convention; '
         'ca = [], all four atmospheric gases or a subset; a second call at another rate for proportionality; a case is non-trivial '
@@ -50,6 +52,7 @@ TOL_RATE = 1e-9    # rate target: exact in the reals; in floating point it rests
 TOL_GOR = 1e-9     # GOR target: what the unchanged tree supports with a margin of 1000 (measured worst over 1500 converged
 #                    cases: 8e-13; fsolve converges quadratically well below its xtol).  A root finder stopped at xtol=1e-3
 #                    misses the target by 1e-5..1e-3 and is reported.
+TOL_SCALE = 1e-12   # get_oil(lambda * masses) vs get_oil(masses), component-wise relative (measured worst over 170 x 3 scaled calls on the unchanged tree: 1.4e-14)
 CALL_TIMEOUT = {'quick': 45, 'thorough': 90}  # s, per get_oil call (slowest observed: 4.1 s)
 
 LIQUIDS = ['2-3-dimethylbutane', '2-methylpentane', '3-methylpentane', 'benzene', 'ethylbenzene', 'isopentane',
@@ -158,7 +161,14 @@ FIXED_CASES = [
 HEAVY = ('toluene', 'ethylbenzene', 'n-decane')
 
 
-def gen_oil(r, heavy=False):
+SCALE_MODES = ('tiny-total', 'trace', 'small-total', 'plain')
+
+
+def gen_oil(r, heavy=False, scale_mode='plain'):
+    """dead oil: composition, GIVEN masses (in the user's units, normalised or not), label.
+    scale_mode: 'tiny-total' total mass 1e-12..3e-10 (every entry <= 1e-9); 'small-total' total 1e-9..1e-6;
+    'trace' one or two components at fractions 1e-12..1e-6 (one of them <= 1e-9), total 1 or log-uniform 1e-3..1e6;
+    'plain' normalised or total log-uniform 1e-2..1e6"""
     n = r.choice([2, 12, r.randint(2, 12), r.randint(2, 12), r.randint(2, 12)])
     comp = r.sample(LIQUIDS, n)
     if r.random() < 0.5:
@@ -175,13 +185,28 @@ def gen_oil(r, heavy=False):
         ms[hv] *= f / ms[hv].sum()
         ms[~hv] *= (1. - f) / max(ms[~hv].sum(), 1e-300)
         ms = ms / ms.sum()
+    if scale_mode == 'trace':
+        others = [k for k in range(n) if k != int(np.argmax(ms))]
+        k1 = r.choice(others)
+        ms[k1] = 10 ** r.uniform(-12, -9)
+        if len(others) > 1 and r.random() < 0.5:
+            k2 = r.choice([k for k in others if k != k1])
+            ms[k2] = 10 ** r.uniform(-9, -6)
+        ms = ms / ms.sum()
+        if r.random() < 0.5:
+            return comp, ms, 'trace, normalised'
+        return comp, ms * 10 ** r.uniform(-3, 6), 'trace, scaled'
+    if scale_mode == 'tiny-total':
+        return comp, ms * 10 ** r.uniform(-12, -9.5), 'total 1e-12..3e-10'
+    if scale_mode == 'small-total':
+        return comp, ms * 10 ** r.uniform(-9, -6), 'total 1e-9..1e-6'
     if r.random() < 0.5:
         return comp, ms, 'normalised'
-    return comp, ms * 10 ** r.uniform(-2, 3), 'scaled'
+    return comp, ms * 10 ** r.uniform(-2, 6), 'scaled'
 
 
-def gen_case(r, stratum):
-    comp, ms, norm = gen_oil(r, heavy=stratum.endswith('heavy'))
+def gen_case(r, stratum, scale_mode='plain'):
+    comp, ms, norm = gen_oil(r, heavy=stratum.endswith('heavy'), scale_mode=scale_mode)
     q = r.choice([1., 1.e6, 10 ** r.uniform(0, 6), 10 ** r.uniform(0, 6), 10 ** r.uniform(2, 5)])
     fp = r.choice([1, 1, 0])
     if stratum == 'gor0-oil':
@@ -197,7 +222,7 @@ def gen_case(r, stratum):
     ca = r.choice([[], [], list(AIR), r.sample(AIR, r.randint(1, 3))])
     c2 = r.choice([2., 0.5, 10 ** r.uniform(-3, 3), 86400.])
     return {'stratum': stratum, 'composition': comp, 'masses': ms.tolist(), 'norm': norm, 'q': q, 'gor': gor, 'fp_type': fp, 'ca': ca,
-            'rate_factor': c2, 'masses_as_list': r.random() < 0.25}
+            'rate_factor': c2, 'masses_as_list': r.random() < 0.25, 'scale_mode': scale_mode}
 
 
 # (stratum, quick count, thorough count); the two fixed cases come first
@@ -325,7 +350,9 @@ def run_case(ctx, c, worst):
     ms = np.array(c['masses'])
     dead = mflux[off:off + n]
     k = float(np.sum(dead) / np.sum(ms))
-    e = float(np.max(np.abs(dead - k * ms))) / float(np.max(k * ms))
+    # COMPONENT-WISE relative (every flux is one multiplication away from its given mass): a trace component that is
+    # dropped or distorted is seen however small it is
+    e = float(np.max(np.abs(dead - k * ms) / (k * ms)))
     worst['prop'] = max(worst['prop'], e)
     if not e <= TOL['identity']:
         ctx.violation('dead-oil-proportions', 'dead-oil components of the returned fluxes are not in the given proportions',
@@ -354,6 +381,30 @@ def run_case(ctx, c, worst):
         key, site = raise_key(e)
         ctx.violation(key, 'second get_oil call (rate %g) raised %s: %s' % (q2, type(e).__name__, str(e)[:200]),
                       dict(rep, q2=q2, traceback=traceback.format_exc()[-3000:]))
+    # ---------------- independent of the absolute scale of the given masses (metamorphic) ----------------
+    if c.get('metamorphic'):
+        for lam in (1e-9, 1e-6, 1e3):
+            c3 = dict(c, masses=(np.array(c['masses']) * lam).tolist())
+            try:
+                with quiet(), timebox(CALL_TIMEOUT[ctx.tier if ctx.tier in CALL_TIMEOUT else 'quick']):
+                    oil3, mflux3 = call_get_oil(c3, c['q'])
+                mflux3 = np.asarray(mflux3, dtype=float)
+                with np.errstate(all='ignore'):
+                    e3 = float(np.max(np.where(mflux > 0., np.abs(mflux3 - mflux) / np.where(mflux > 0., mflux, 1.), np.abs(mflux3))))
+                worst['scale'] = max(worst['scale'], e3 if math.isfinite(e3) else float('inf'))
+                if not e3 <= TOL_SCALE:
+                    ctx.violation('flux-depends-on-mass-scale', 'get_oil(lambda * masses) differs from get_oil(masses): the result depends on the '
+                                  'absolute scale of the given dead-oil masses', dict(rep, scale_factor=lam, mass_flux_scaled=mflux3.tolist(), relerr=e3))
+                    break
+            except Timeout:
+                ctx.count('scaled get_oil call timed out (counted)')
+                c['second_timeout'] = True
+            except Exception as e:
+                key, site = raise_key(e)
+                ctx.violation(key, 'get_oil on the masses scaled by %g raised %s: %s' % (lam, type(e).__name__, str(e)[:200]),
+                              dict(rep, scale_factor=lam, traceback=traceback.format_exc()[-3000:]))
+                break
+        c['metamorphic_done'] = True
     c.setdefault('outcome', 'judged')     # every predicate of the property was evaluated on this case
     # ---------------- named hypotheses sampled: homogeneity of the flash / scale invariance -------------
     std = [(mm, r) for mm, T, P, r in rec.flash if T == T_STD and P == P_STD]
@@ -487,12 +538,18 @@ def classify_gor_failure(c, root, rep):
 
 def run(ctx, lean_ok):
     r = ctx.rng
-    worst = {k: 0. for k in ('gor', 'rate', 'prop', 'linear', 'homog', 'residual/gor', 'corr')}
+    worst = {k: 0. for k in ('gor', 'rate', 'prop', 'linear', 'homog', 'residual/gor', 'corr', 'scale')}
     lines, owners = [], []
     tmax = 0.
     todo = [dict(c) for c in FIXED_CASES]
+    kmode = 0
     for name, nq, nt in PLAN:
-        todo += [gen_case(r, name) for _ in range(ctx.n(nq, nt))]
+        for _ in range(ctx.n(nq, nt)):
+            # the absolute scale of the given masses cycles through the four classes inside every GOR band
+            todo.append(gen_case(r, name, SCALE_MODES[kmode % len(SCALE_MODES)]))
+            kmode += 1
+    for k, c in enumerate(todo):
+        c['metamorphic'] = (k % 3 == 0)        # a fixed third of the cases: get_oil(lambda * masses) == get_oil(masses)
     ntot = len(todo)
     allowed_timeouts = max(1, int(MAX_TIMEOUT_SHARE * ntot))
     outcomes = {}
@@ -532,6 +589,12 @@ def run(ctx, lean_ok):
         need = ctx.n(fq, ft)
         ctx.oblige('coverage floor: >= %d cases with %s JUDGED (all predicates evaluated on a finite get_oil result)' % (need, b),
                    judged[b] >= need, 'only %d judged; outcomes %r' % (judged[b], outcomes))
+    jd = [c for c in todo if c.get('outcome') == 'judged']
+    for name, have, need in (('a given mass entry <= 1e-9', sum(1 for c in jd if min(c['masses']) <= 1e-9), ctx.n(5, 100)),
+                             ('a total given mass <= 1e-6', sum(1 for c in jd if sum(c['masses']) <= 1e-6), ctx.n(5, 100)),
+                             ('a total given mass >= 1e3', sum(1 for c in jd if sum(c['masses']) >= 1e3), ctx.n(1, 20)),
+                             ('the scale-invariance (metamorphic) predicate evaluated', sum(1 for c in jd if c.get('metamorphic_done')), ctx.n(5, 100))):
+        ctx.oblige('coverage floor: >= %d JUDGED cases with %s' % (need, name), have >= need, 'only %d' % have)
     ctx.oblige('coverage: all %d planned cases attempted and time-outs <= %d (%.0f %%)' % (ntot, allowed_timeouts, 100 * MAX_TIMEOUT_SHARE),
                done == ntot and ntimeout <= allowed_timeouts, '%d attempted, %d time-outs' % (done, ntimeout))
     nknown = outcomes.get('known-signature', 0)
